@@ -1,4 +1,4 @@
-import MqttVerif.Generated.Config
+import MqttVerif.Generated.AddrScan
 /-
   Obligation on the configuration regenerated from /repo's current source, for C19 only (kept apart from `ConfigOk` so that a change
   which breaks it does not take the obligations of C14 and C20 with it).
